@@ -245,6 +245,7 @@ func NewFleet(sim *Sim, root string, cfg FleetCfg) (*Fleet, error) {
 
 // Close tears the fleet down: every node is crashed and its LMDB closed.
 func (f *Fleet) Close() {
+	deregisterHealth()
 	for _, n := range f.Nodes {
 		n.Crash()
 	}
